@@ -616,7 +616,8 @@ def _r8(ctx):
     n = 0
     for label, rel, cfg, fname in CONFIGS:
         ctx.saw(rel)
-        items = J.flatten(ctx.tree, rel, cfg)
+        # (`{% set %}` variables and the parameters of expanded macros are read as the expressions they stand for)
+        items = J.propagate_sets(J.flatten(ctx.tree, rel, cfg))
         sk = Skel(items)
         if not sk.func(fname):
             ctx.missing("R8", f"{label}:{fname}", (rel, 0), f"function {fname} not found in the specialised template")
@@ -765,6 +766,9 @@ MUTANTS = [
     {"name": "fex-pipeline-suffix-text", "file": TEMPLATES["cvode"], "old": "    {% for eq in ode.fex -%}\n        {{ eq | stmwrap(80, 8) }}\n    {% endfor %}\n", "new": "    {{ ode.fex | map(\"stmwrap\", 80, 8) | map(\"suffix\", \" + 0.0\\n    \") | join }}\n", "rules": ["R8"]},
     {"name": "signed-chain-of-rows-signs-swapped", "file": T, "old": '            for specidx in rspecidx:\n                rhs[specidx] += f" - {rate_sym}[{rl}]*{rsym_mul}"\n            for specidx in pspecidx:\n                rhs[specidx] += f" + {rate_sym}[{rl}]*{rsym_mul}"\n', "new": '            import itertools\n            for sign, specidx in itertools.chain(zip(itertools.repeat(" + "), rspecidx), zip(itertools.repeat(" - "), pspecidx)):\n                rhs[specidx] += sign + f"{rate_sym}[{rl}]*{rsym_mul}"\n', "rules": ["R2", "R3"]},
     {"name": "reactants-setattr-table-unfiltered", "file": 'naunet/reactions/reaction.py', "old": '        self.reactants = [\n            self._create_species(r.strip())\n            for r in rps[0:3]\n            if self._create_species(r.strip())\n        ]\n', "new": '        for attr, cols in (("reactants", rps[0:3]),):\n            setattr(self, attr, [self._create_species(r.strip()) for r in cols])\n', "rules": ["R6"]},
+    {"name": "fex-pasted-by-macro-sliced", "edits": [
+        {"file": TEMPLATES["cvode"], "old": "#include <math.h>\n", "new": '{% macro paste(eqs, width, indent) %}{% for line in eqs[:-1] -%}\n        {{ line | stmwrap(width, indent) }}\n    {% endfor %}{% endmacro %}\n#include <math.h>\n', "count": 1},
+        {"file": TEMPLATES["cvode"], "old": "    {% for eq in ode.fex -%}\n        {{ eq | stmwrap(80, 8) }}\n    {% endfor %}\n", "new": "    {{ paste(ode.fex, 80, 8) }}\n"}], "rules": ["R8"]},
     {"name": "kernel-replace-swapped", "file": TEMPLATES["cvode"], "old": 'replace("y[IDX", "y_cur[IDX") | stmwrap(80, 12)', "new": 'replace("y_cur[IDX", "y[IDX") | stmwrap(80, 12)', "rules": ["R8"]},
     {"name": "stmwrap-breaks-words", "file": "naunet/utilities.py", "old": "break_long_words=False", "new": "break_long_words=True", "rules": ["R8"]},
     {"name": "textwrapper-breaks-words", "file": "naunet/utilities.py", "old": "wrappedlist = wrap(text, width - indent, break_long_words=False)", "new": "import textwrap\n    wrappedlist = textwrap.TextWrapper(width=width - indent).wrap(text)", "rules": ["R8"]},
@@ -817,5 +821,8 @@ BENIGN = [
     {"name": "reactants-setattr-table", "file": 'naunet/reactions/reaction.py', "old": '        self.reactants = [\n            self._create_species(r.strip())\n            for r in rps[0:3]\n            if self._create_species(r.strip())\n        ]\n', "new": '        for attr, cols in (("reactants", rps[0:3]),):\n            setattr(self, attr, [self._create_species(r.strip()) for r in cols if self._create_species(r.strip())])\n'},
     {"name": "rhs-init-repeat", "file": T, "old": '        rhs = ["0.0"] * n_eqns\n', "new": '        import itertools\n        rhs = list(itertools.repeat("0.0", n_eqns))\n'},
     {"name": "abundance-symbols-percent-format", "file": T, "old": 'y = [f"y[IDX_{x.alias}]" for x in species]', "new": 'y = ["y[IDX_%s]" % x.alias for x in species]'},
+    {"name": "fex-pasted-by-macro", "edits": [
+        {"file": TEMPLATES["cvode"], "old": "#include <math.h>\n", "new": '{% macro paste(eqs, width, indent) %}{% for line in eqs -%}\n        {{ line | stmwrap(width, indent) }}\n    {% endfor %}{% endmacro %}\n#include <math.h>\n', "count": 1},
+        {"file": TEMPLATES["cvode"], "old": "    {% for eq in ode.fex -%}\n        {{ eq | stmwrap(80, 8) }}\n    {% endfor %}\n", "new": "    {{ paste(ode.fex, 80, 8) }}\n"}]},
     {"name": "template-reindent", "file": TEMPLATES["cvode"], "old": "    {% for eq in ode.fex -%}\n        {{ eq | stmwrap(80, 8) }}", "new": "    {% for eq in ode.fex -%}\n      {{ eq|stmwrap(80, 6) }}"},
 ]
